@@ -2,7 +2,7 @@
 """Applies each property-preserving change kept under /verif/benign/<id>/patch.diff to a scratch worktree of /repo and
 runs ALL quick checks against it: every one must stay silent (exit 0). An alarm here is a false alarm of the machinery
 (or the change is not benign after all - see the notes next to it).
-usage: selftest/run_benign.py [--only substring ...] [--jobs N]"""
+usage: selftest/run_benign.py [--jobs N] [--checks C01,C07] [--only substring ...]"""
 import glob, os, subprocess, sys, concurrent.futures as cf
 ROOT = os.path.dirname(os.path.dirname(os.path.abspath(__file__)))
 ALL = ["C%02d" % i for i in range(1, 21)]
@@ -31,13 +31,16 @@ def main():
     while a:
         x = a.pop(0)
         if x == "--jobs": jobs = int(a.pop(0))
+        elif x == "--checks":
+            global ALL
+            ALL = a.pop(0).split(",")
         elif x == "--only": only = a; break
     dirs = [d for d in sorted(glob.glob(os.path.join(ROOT, "benign", "*-[0-9]"))) if not only or any(o in d for o in only)]
     rows = []
     with cf.ThreadPoolExecutor(jobs) as ex:
         for name, alarms in ex.map(one, dirs):
-            rows.append((name, alarms)); print("%-8s %s" % (name, "silent (20/20)" if not alarms else "ALARM: " + "; ".join(alarms)), flush=True)
-    if not only:
+            rows.append((name, alarms)); print("%-8s %s" % (name, "silent (%d/%d)" % (len(ALL), len(ALL)) if not alarms else "ALARM: " + "; ".join(alarms)), flush=True)
+    if not only and len(ALL) == 20:
         with open(os.path.join(ROOT, "selftest", "BENIGN-quick.md"), "w") as f:
             f.write("# Property-preserving changes (independent sub-agents) against all 20 quick checks\n\n| change | verdict |\n|---|---|\n")
             for n, al in rows: f.write("| %s | %s |\n" % (n, "silent (20/20)" if not al else "ALARM: " + "; ".join(al)))
